@@ -67,8 +67,10 @@ add("C05", "exploration",
     "SqliteStore: per log P = highest ingested prune-flagged seq; after every delivery no stored "
     "entry has seq < P",
     "Logs with 2-4 prune points are cut at the prune points and the segments delivered in permuted "
-    "(mostly reversed) order, with duplicates and late lone prune-flagged operations; small logs in "
-    "every permutation. Exploration over the delivery orders it ran; the case the statement singles "
+    "(mostly reversed) order, with duplicates, late lone prune-flagged operations and, right after a "
+    "prune point was applied, rogue operations signed by the log's own author (seq tip-1 / tip / below "
+    "the prune point, flagged or not, backlink = tip / other stored entry / pruned predecessor / "
+    "random; ~5 000 per quick run); small logs in every permutation. Exploration over the delivery orders it ran; the case the statement singles "
     "out (older prune-flagged operation after a newer prune point) is what counts as non-trivial "
     "(quick >= 1 000 distinct such histories). A second stage (mode=concurrent): 2-4 concurrent "
     "writers on clones of one file-backed, multi-connection store, one delivering the newer prune "
